@@ -103,6 +103,22 @@ func payloadFor(n int, w uint16) []byte {
 
 var sopts = gopacket.SerializeOptions{FixLengths: true, ComputeChecksums: true}
 
+// usedBuffer returns a cleared serialize buffer whose memory still holds the bytes of an
+// earlier, longer packet (0xA5 where prepends land, 0x5A where appends land).
+func usedBuffer(n int) gopacket.SerializeBuffer {
+	b := gopacket.NewSerializeBuffer()
+	p, _ := b.PrependBytes(n)
+	for i := range p {
+		p[i] = 0xA5
+	}
+	a, _ := b.AppendBytes(32)
+	for i := range a {
+		a[i] = 0x5A
+	}
+	b.Clear()
+	return b
+}
+
 // build serialises one packet; the 16-bit sweep word w goes into the first two payload
 // bytes (payload >= 2) or into a header field that selects no decoder.
 func build(c combo, n int, w uint16) (*built, error) {
@@ -220,7 +236,10 @@ func build(c combo, n int, w uint16) (*built, error) {
 		}
 	}
 	ls = append(ls, gopacket.Payload(pl))
-	buf := gopacket.NewSerializeBuffer()
+	// the packet is written into a buffer that held other bytes before (a re-used, cleared
+	// buffer): a checksum computed before every covered byte is in place - padding copied in
+	// afterwards, a field filled in later - sums stale bytes and differs from the reference
+	buf := usedBuffer(len(pl) + 160)
 	if err := gopacket.SerializeLayers(buf, sopts, ls...); err != nil {
 		return nil, err
 	}
